@@ -202,7 +202,7 @@ def _drain(pipe, shard, which):
             shard.err_tail = (shard.err_tail + chunk)[-4000:]
 
 
-STALL_S = {"dbg": 40, "rel": 40, "odd": 40, "asan": 120, "tsan": 120, "miri": 600}
+STALL_S = {"dbg": 240, "rel": 240, "odd": 240, "asan": 480, "tsan": 480, "miri": 900}
 
 
 def run_shards(tag, prop, tier, seed, rundir, nshards=None, scale=None, time_cap=None, watchdog=600,
@@ -652,12 +652,12 @@ def _check(prop, tier, seed, rundir, t_start):
                     # recorded without spending another confirmation bound on each
                     confirmed_hangs.append((tag, stream, idx))
                     continue
-                rc2, out2 = run_only(tag, prop, wtier, seed, stream, idx, timeout=90 if tag != "miri" else 900)
+                rc2, out2 = run_only(tag, prop, wtier, seed, stream, idx, timeout=300 if tag != "miri" else 1200)
                 if rc2 is None:
                     confirmed_hangs.append((tag, stream, idx))
                 if rc2 is None:
                     v = {"signature": "%s:hang:%s" % (prop, stream), "build": tag, "stream": stream, "idx": idx, "tier": wtier,
-                         "detail": "case %s:%d made no progress for %d s inside a worker and did not finish within %d s when executed alone in a fresh process (other cases of this stream take micro- to milliseconds): the call does not terminate" % (stream, idx, STALL_S.get(tag, 60), 90 if tag != "miri" else 900),
+                         "detail": "case %s:%d made no progress for %d s inside a worker and did not finish within %d s when executed alone in a fresh process (other cases of this stream take micro- to milliseconds): the call does not terminate" % (stream, idx, STALL_S.get(tag, 60), 300 if tag != "miri" else 1200),
                          "witness": {"replay": "./check --replay on this file re-executes the case (it will not return)"}}
                     if prop in ("C01", "C13"):
                         hard.append(v)
